@@ -6,7 +6,8 @@ From Coq Require Import List NArith Bool.
 Import ListNotations.
 From RX.Model Require Import Base Stream Tokenizer Doc Builder Api.
 From RX.Spec Require Import Tree Deque.
-From RX.Proofs Require Import NavEnc NavLinks NavIter NavAxes.
+From Coq Require Import PeanoNat.
+From RX.Proofs Require Import NavEnc NavLinks NavIter NavAxes NavElem.
 Open Scope N_scope.
 
 Theorem C11_table_ids :
@@ -119,3 +120,109 @@ Theorem C11_nav_last_children :
   axis_list d AxLastChildren id = Ok (last_chain id s).
 Proof. exact nav_last_children. Qed.
 Print Assumptions C11_nav_last_children.
+
+Theorem C11_nav_has_siblings :
+  forall d t id par s,
+  Arena d t -> In (id, par, s) (table t) ->
+  has_siblings d id = Ok (negb (length (sibling_ids t id par) <=? 1)%nat).
+Proof. exact nav_has_siblings. Qed.
+Print Assumptions C11_nav_has_siblings.
+
+Theorem C11_nav_element_variants_exclude_self :
+  forall d t id par s,
+  Arena d t -> In (id, par, s) (table t) ->
+  ~ In id (ancestor_ids t par) /\
+  ~ In id (before N.eqb id (sibling_ids t id par)) /\
+  ~ In id (after N.eqb id (sibling_ids t id par)) /\
+  ~ In id (child_ids (id + 1) (tchildren s)).
+Proof. exact nav_element_variants_exclude_self. Qed.
+Print Assumptions C11_nav_element_variants_exclude_self.
+
+Theorem C11_nav_parent_element :
+  forall d t id par s,
+  Arena d t -> In (id, par, s) (table t) ->
+  parent_element d id = Ok (first_elem t (ancestor_ids t par)).
+Proof. exact nav_parent_element. Qed.
+Print Assumptions C11_nav_parent_element.
+
+Theorem C11_nav_prev_sibling_element :
+  forall d t id par s,
+  Arena d t -> In (id, par, s) (table t) ->
+  prev_sibling_element d id =
+  Ok (first_elem t (rev (before N.eqb id (sibling_ids t id par)))).
+Proof. exact nav_prev_sibling_element. Qed.
+Print Assumptions C11_nav_prev_sibling_element.
+
+Theorem C11_nav_next_sibling_element :
+  forall d t id par s,
+  Arena d t -> In (id, par, s) (table t) ->
+  next_sibling_element d id = Ok (first_elem t (after N.eqb id (sibling_ids t id par))).
+Proof. exact nav_next_sibling_element. Qed.
+Print Assumptions C11_nav_next_sibling_element.
+
+Theorem C11_nav_first_element_child :
+  forall d t id par s,
+  Arena d t -> In (id, par, s) (table t) ->
+  first_element_child d id = Ok (first_elem t (child_ids (id + 1) (tchildren s))).
+Proof. exact nav_first_element_child. Qed.
+Print Assumptions C11_nav_first_element_child.
+
+Theorem C11_nav_last_element_child :
+  forall d t id par s,
+  Arena d t -> In (id, par, s) (table t) ->
+  last_element_child d id = Ok (first_elem t (rev (child_ids (id + 1) (tchildren s)))).
+Proof. exact nav_last_element_child. Qed.
+Print Assumptions C11_nav_last_element_child.
+
+Theorem C11_nav_root_element :
+  forall d t i,
+  Arena d t -> first_elem t (child_ids 1 (tchildren t)) = Some i -> root_element d = Ok i.
+Proof. exact nav_root_element. Qed.
+Print Assumptions C11_nav_root_element.
+
+Theorem C11_nav_root_element_none :
+  forall d t,
+  Arena d t -> first_elem t (child_ids 1 (tchildren t)) = None ->
+  root_element d = Panic P_unwrap.
+Proof. exact nav_root_element_none. Qed.
+Print Assumptions C11_nav_root_element_none.
+
+Theorem C11_nav_text_storage :
+  forall d t id par s nd,
+  Arena d t -> In (id, par, s) (table t) -> node_data_of d id = Ok nd ->
+  text_storage d id =
+  Ok (match nd_kind nd with
+      | KElement _ _ _ _ =>
+        match hd_error (child_ids (id + 1) (tchildren s)) with
+        | Some c =>
+          match get_node d c with
+          | Some cnd => match nd_kind cnd with KText st => Some st | _ => None end
+          | None => None
+          end
+        | None => None
+        end
+      | KComment sl => Some (Borrowed (SIn sl))
+      | KText st => Some st
+      | _ => None
+      end).
+Proof. exact nav_text_storage. Qed.
+Print Assumptions C11_nav_text_storage.
+
+Theorem C11_nav_tail_storage :
+  forall d t id par s nd,
+  Arena d t -> In (id, par, s) (table t) -> node_data_of d id = Ok nd ->
+  tail_storage d id =
+  Ok (match nd_kind nd with
+      | KElement _ _ _ _ =>
+        match hd_error (after N.eqb id (sibling_ids t id par)) with
+        | Some c =>
+          match get_node d c with
+          | Some cnd => match nd_kind cnd with KText st => Some st | _ => None end
+          | None => None
+          end
+        | None => None
+        end
+      | _ => None
+      end).
+Proof. exact nav_tail_storage. Qed.
+Print Assumptions C11_nav_tail_storage.
